@@ -171,12 +171,12 @@ class GeopackageCache(TileCacheBase):
                 (self.table_name,))
 
             results = cur.fetchall()
-            results = results[0]
             tile_size = self.tile_grid.tile_size
 
             if not results:
                 # There is no tile conflict. Return to allow the creation of new tiles.
                 return True
+            results = results[0]
 
             gpkg_table_name, gpkg_zoom_level, gpkg_matrix_width, gpkg_matrix_height, gpkg_tile_width, \
                 gpkg_tile_height, gpkg_pixel_x_size, gpkg_pixel_y_size = results
